@@ -48,6 +48,33 @@ func (r *byteReader) ReadByte() (byte, error) {
 	return buff[0], err
 }
 
+// ExactReader returns a Reader that reads exactly n bytes from r: like io.LimitReader it stops
+// with io.EOF after n bytes, but if r ends before n bytes were read the error is
+// io.ErrUnexpectedEOF, so that a frame cut short by the peer is never mistaken for a complete one.
+func ExactReader(r io.Reader, n int64) io.Reader {
+	return &exactReader{r: r, n: n}
+}
+
+type exactReader struct {
+	r io.Reader
+	n int64 // bytes remaining
+}
+
+func (e *exactReader) Read(p []byte) (n int, err error) {
+	if e.n <= 0 {
+		return 0, io.EOF
+	}
+	if int64(len(p)) > e.n {
+		p = p[0:e.n]
+	}
+	n, err = e.r.Read(p)
+	e.n -= int64(n)
+	if err == io.EOF && e.n > 0 {
+		err = io.ErrUnexpectedEOF
+	}
+	return
+}
+
 // ToReader wrap message to io.Reader
 func ToReader(message interface{}) (io.Reader, error) {
 
